@@ -452,3 +452,44 @@ func init() {
 		return nil
 	}
 }
+
+// flattenLeaves lists the scalar leaves of a value (for uninterpreted encoders).
+func (e *Exec) flattenLeaves(v Value, out *[]*Term, depth int) {
+	if depth > 6 {
+		return
+	}
+	switch x := v.(type) {
+	case *Term:
+		*out = append(*out, x)
+	case StrV:
+		*out = append(*out, x.Term(e.tf))
+	case TimeV:
+		*out = append(*out, x.Sec)
+	case StructV:
+		for _, f := range x.F {
+			e.flattenLeaves(f, out, depth+1)
+		}
+	case SliceV:
+		*out = append(*out, e.tf.Int(int64(x.Len)))
+		for i := 0; i < x.Len; i++ {
+			e.flattenLeaves(getPath(x.Arr.V, []int{x.Off + i}), out, depth+1)
+		}
+	case Ptr:
+		if x.Obj != nil {
+			e.flattenLeaves(getPath(x.Obj.V, x.Path), out, depth+1)
+		}
+	case IfaceV:
+		e.flattenLeaves(x.V, out, depth+1)
+	}
+}
+
+func init() {
+	// json.Marshal is an uninterpreted function of the scalar leaves of its argument.
+	stubs["encoding/json.Marshal"] = func(e *Exec, fr *Frame, fn *ssa.Function, a []Value) Value {
+		iv := a[0].(IfaceV)
+		var leaves []*Term
+		e.flattenLeaves(iv.V, &leaves, 0)
+		name := "json_" + sanitize(typeKey(iv.T)) + "_" + itoa(len(leaves))
+		return TupleV{BytesV{S: StrV{T: e.tf.UF(name, SStr, leaves...)}}, IfaceV{}}
+	}
+}
